@@ -361,6 +361,11 @@ def check_c12(res, tier, replay):
         for _ in range(n):
             workers = rng.choice([1, 1, 2, 3, 8])
             assets = '-' if rng.random() < 0.3 else ','.join(rng.sample(names, rng.randrange(1, 6)))
+            if assets != '-' and workers == 1 and rng.random() < 0.35:
+                # a name listed twice (one worker: the two copies run one after the other, the second finds nothing missing)
+                al = assets.split(',')
+                al.insert(rng.randrange(len(al) + 1), rng.choice(al))
+                assets = ','.join(al)
             fs = '-' if rng.random() < 0.7 else ','.join(rng.sample(names, rng.randrange(1, 3)))
             ft = '-' if rng.random() < 0.7 else ','.join(rng.sample(names, rng.randrange(1, 3)))
             impl = rng.choice(['mem', 'mem', 'fs', 'memtz'])     # memtz: local midnights in a daylight-saving zone (in-memory only)
@@ -430,7 +435,7 @@ def check_c12(res, tier, replay):
         'violations_found': bad, 'race_detector_runs': (80 if tier == 'quick' else 600) if okr else 0, 'race_reports': race_reports,
         'traces_validated_against_impl': len(cases) - mism, 'go_vs_model_mismatches': mism, 'trusted_base': vlib.TRUSTED,
     })
-    res.assumptions = ['source repositories are date-sorted with whole-day dates; asset lists without duplicates',
+    res.assumptions = ['source repositories are date-sorted with whole-day dates; a name listed twice only with a single worker (two workers copying the same asset at once is outside what the property promises)',
                        'data races are a property of Go memory accesses: witnessed by the race detector, not by the model']
     return res.finish()
 
